@@ -254,84 +254,83 @@ def _drv_sub(max_body, nested, len_exhaustive=True, ops=None):
 
 
 def _sub_case(ch, max_body, nested, len_exhaustive, body_ops):
-    if True:
-        env = _feed_env()
-        calls = []
-        nid = 0
-        pre = ch.all("pre", ["none", "Add", "Mul"])
-        outer = ["x", "y"]
-        if pre != "none":
-            c = {"k": "op", "id": nid, "op": pre, "args": [V("x"), L(1.0) if pre == "Add" else V("y")], "attrs": {}, "out": 1}
-            _try([c], env)
-            calls.append(c)
-            outer = [f"%{nid}.0"] + outer
-            nid += 1
-        kind = ch.all("kind", ["if", "loop", "scan"] + (["loop-if"] if nested else []))
-        cid = nid
-        nid += 1
-        if kind == "if":
-            cond = ch.choose("cond", [V("c"), L(True)])
-            branches = []
-            for tag in ("then", "else"):
-                n = _len(ch, f"{tag}.len", max_body, len_exhaustive)
-                bc, nid, last = _body_calls(ch, tag, nid, n, [], outer, env, body_ops)
-                ret = ch.choose(f"{tag}.ret", [V(last), V(outer[0])])
-                branches.append({"calls": bc, "ret": [ret]})
-            c = {"k": "if", "id": cid, "cond": cond, "then": branches[0], "else": branches[1]}
-        elif kind in ("loop", "loop-if"):
-            trip = ch.choose("trip", [L(3), L(1)])
-            init = ch.choose("init", [V(outer[-1]), V(outer[0])])
-            env[f"%{cid}.s0"] = T._need_array(env, init)
-            env[f"%{cid}.it"] = np.array(0, np.int64)
-            env[f"%{cid}.c"] = np.array(True)
-            n = _len(ch, "body.len", max_body, len_exhaustive)
-            bc, nid, last = _body_calls(ch, "body", nid, n, [f"%{cid}.s0"], outer, env, body_ops)
-            if kind == "loop-if":
-                # an If nested in the loop body, deciding on the iteration number
-                tcid = nid
-                lt = {"k": "op", "id": nid, "op": "Less", "args": [V(f"%{cid}.it"), L(1)], "attrs": {}, "out": 1}
-                nid += 1
-                icid = nid
-                nid += 1
-                tb, nid, tl = _body_calls(ch, "nthen", nid, 1, [last], outer, env)
-                eb, nid, el = _body_calls(ch, "nelse", nid, 1, [last], outer, env)
-                inner = {"k": "if", "id": icid, "cond": V(f"%{tcid}.0"), "then": {"calls": tb, "ret": [V(tl)]},
-                         "else": {"calls": eb, "ret": [V(el)]}}
-                bc = bc + [lt, inner]
-                last = f"%{icid}.0"
-            scan = ch.choose("scanout", ["same", "none", "other"])
-            ret_scan = {"same": [V(last)], "none": [], "other": [V(bc[0]["args"][0]["v"])]}[scan]
-            c = {"k": "loop", "id": cid, "trip": trip, "init": [init],
-                 "body": {"calls": bc, "ret_cond": V(f"%{cid}.c"), "ret_state": [V(last)], "ret_scan": ret_scan}}
-        else:
-            # Scan: state = column sums of y ([3]); scanned over the rows of x
-            st = {"k": "op", "id": cid, "op": "ReduceSum", "args": [V("y"), L([0])], "attrs": {"keepdims": 0}, "out": 1}
-            _try([st], env)
-            calls.append(st)
-            sid = nid
-            nid += 1
-            env[f"%{sid}.s0"] = env[f"%{cid}.0"]
-            env[f"%{sid}.e0"] = env["x"][0]
-            outer_s = [o for o in outer if o not in ("x", "y")] + [f"%{cid}.0"]
-            n = _len(ch, "body.len", max_body, len_exhaustive)
-            bc, nid, last = _body_calls(ch, "body", nid, n, [f"%{sid}.s0", f"%{sid}.e0"], outer_s or [f"%{cid}.0"], env, body_ops)
-            scan = ch.choose("scanout", ["same", "elem"])
-            ret_scan = [V(last)] if scan == "same" else [V(f"%{sid}.e0")]
-            c = {"k": "scan", "id": sid, "init": [V(f"%{cid}.0")], "xs": [V("x")],
-                 "body": {"calls": bc, "ret_state": [V(last)], "ret_scan": ret_scan}}
-            cid = sid
-        c["decl_typed"] = not ch.flag("decl-untyped")
+    env = _feed_env()
+    calls = []
+    nid = 0
+    pre = ch.all("pre", ["none", "Add", "Mul"])
+    outer = ["x", "y"]
+    if pre != "none":
+        c = {"k": "op", "id": nid, "op": pre, "args": [V("x"), L(1.0) if pre == "Add" else V("y")], "attrs": {}, "out": 1}
+        _try([c], env)
         calls.append(c)
-        if ch.all("post", [False, True]):
-            calls.append({"k": "op", "id": nid, "op": "Add", "args": [V(f"%{cid}.0"), L(1.0)], "attrs": {}, "out": 1})
+        outer = [f"%{nid}.0"] + outer
+        nid += 1
+    kind = ch.all("kind", ["if", "loop", "scan"] + (["loop-if"] if nested else []))
+    cid = nid
+    nid += 1
+    if kind == "if":
+        cond = ch.choose("cond", [V("c"), L(True)])
+        branches = []
+        for tag in ("then", "else"):
+            n = _len(ch, f"{tag}.len", max_body, len_exhaustive)
+            bc, nid, last = _body_calls(ch, tag, nid, n, [], outer, env, body_ops)
+            ret = ch.choose(f"{tag}.ret", [V(last), V(outer[0])])
+            branches.append({"calls": bc, "ret": [ret]})
+        c = {"k": "if", "id": cid, "cond": cond, "then": branches[0], "else": branches[1]}
+    elif kind in ("loop", "loop-if"):
+        trip = ch.choose("trip", [L(3), L(1)])
+        init = ch.choose("init", [V(outer[-1]), V(outer[0])])
+        env[f"%{cid}.s0"] = T._need_array(env, init)
+        env[f"%{cid}.it"] = np.array(0, np.int64)
+        env[f"%{cid}.c"] = np.array(True)
+        n = _len(ch, "body.len", max_body, len_exhaustive)
+        bc, nid, last = _body_calls(ch, "body", nid, n, [f"%{cid}.s0"], outer, env, body_ops)
+        if kind == "loop-if":
+            # an If nested in the loop body, deciding on the iteration number
+            tcid = nid
+            lt = {"k": "op", "id": nid, "op": "Less", "args": [V(f"%{cid}.it"), L(1)], "attrs": {}, "out": 1}
             nid += 1
-        typed = not ch.flag("untyped")
-        tr = {"typed": typed, "calls": calls}
-        try:
-            T.replay(tr, T.FEEDS[0], cross_check=False)
-        except T.ReplayError:
-            raise explore.Prune() from None
-        return {"fam": "sub", "trace": tr}
+            icid = nid
+            nid += 1
+            tb, nid, tl = _body_calls(ch, "nthen", nid, 1, [last], outer, env)
+            eb, nid, el = _body_calls(ch, "nelse", nid, 1, [last], outer, env)
+            inner = {"k": "if", "id": icid, "cond": V(f"%{tcid}.0"), "then": {"calls": tb, "ret": [V(tl)]},
+                     "else": {"calls": eb, "ret": [V(el)]}}
+            bc = bc + [lt, inner]
+            last = f"%{icid}.0"
+        scan = ch.choose("scanout", ["same", "none", "other"])
+        ret_scan = {"same": [V(last)], "none": [], "other": [V(bc[0]["args"][0]["v"])]}[scan]
+        c = {"k": "loop", "id": cid, "trip": trip, "init": [init],
+             "body": {"calls": bc, "ret_cond": V(f"%{cid}.c"), "ret_state": [V(last)], "ret_scan": ret_scan}}
+    else:
+        # Scan: state = column sums of y ([3]); scanned over the rows of x
+        st = {"k": "op", "id": cid, "op": "ReduceSum", "args": [V("y"), L([0])], "attrs": {"keepdims": 0}, "out": 1}
+        _try([st], env)
+        calls.append(st)
+        sid = nid
+        nid += 1
+        env[f"%{sid}.s0"] = env[f"%{cid}.0"]
+        env[f"%{sid}.e0"] = env["x"][0]
+        outer_s = [o for o in outer if o not in ("x", "y")] + [f"%{cid}.0"]
+        n = _len(ch, "body.len", max_body, len_exhaustive)
+        bc, nid, last = _body_calls(ch, "body", nid, n, [f"%{sid}.s0", f"%{sid}.e0"], outer_s or [f"%{cid}.0"], env, body_ops)
+        scan = ch.choose("scanout", ["same", "elem"])
+        ret_scan = [V(last)] if scan == "same" else [V(f"%{sid}.e0")]
+        c = {"k": "scan", "id": sid, "init": [V(f"%{cid}.0")], "xs": [V("x")],
+             "body": {"calls": bc, "ret_state": [V(last)], "ret_scan": ret_scan}}
+        cid = sid
+    c["decl_typed"] = not ch.flag("decl-untyped")
+    calls.append(c)
+    if ch.all("post", [False, True]):
+        calls.append({"k": "op", "id": nid, "op": "Add", "args": [V(f"%{cid}.0"), L(1.0)], "attrs": {}, "out": 1})
+        nid += 1
+    typed = not ch.flag("untyped")
+    tr = {"typed": typed, "calls": calls}
+    try:
+        T.replay(tr, T.FEEDS[0], cross_check=False)
+    except T.ReplayError:
+        raise explore.Prune() from None
+    return {"fam": "sub", "trace": tr}
 
 
 # functions
